@@ -6,6 +6,7 @@
      defaults t e a b c n | pkgid v | shset c t | shget c | spacing a b | spacing0
      use k mode pay      one collective round sc_notify_payload on controller k (nothing is stored by it)
      usev k mode         one collective round sc_notify_payloadv (variable-size payload) on controller k
+     usevn k mode        the same with the payload-free form of sc_notify_payloadv (payload arguments NULL)
      shuse c v           sc_shmem_malloc / write / [allgather] / [prefix] / free on communicator c (v: bit 0 allgather, bit 1 prefix, bit 2 memcpy)
      spacingu a b u      as `spacing`, but the options object is USED between set_spacing and the observed print_usage
                          (u: bit 0 sc_options_parse, bit 1 an earlier print_usage, bit 2 print_summary, bit 3 more options added)
@@ -134,6 +135,19 @@ static void do_usev (sc_notify_t * n, int mode)
 {
   int recs[32], snds[32], rank = 0, nn, i, j, tot = 0;
   sc_array_t *rec, *snd, *in, *out, *ioff, *ooff;
+  if (mode >= 10) {
+    /* the payload-free form of sc_notify_payloadv: all four payload arguments NULL (receiver pattern mode - 10) */
+    nn = pattern (sc_notify_get_comm (n), mode - 10, recs, snds, &rank);
+    rec = sc_array_new_count (sizeof (int), (size_t) nn);
+    snd = sc_array_new (sizeof (int));
+    for (i = 0; i < nn; i++) *(int *) sc_array_index_int (rec, i) = recs[i];
+    sc_notify_payloadv (rec, snd, NULL, NULL, NULL, NULL, 1, n);
+    if ((int) snd->elem_count != nn) note ("number of senders (payloadv without payload)", n, mode, -1);
+    else for (i = 0; i < nn; i++) if (*(int *) sc_array_index_int (snd, i) != snds[i]) { note ("senders (payloadv without payload)", n, mode, -1); break; }
+    sc_array_destroy (rec); sc_array_destroy (snd);
+    sc_MPI_Barrier (sc_MPI_COMM_WORLD);
+    return;
+  }
   nn = pattern (sc_notify_get_comm (n), mode, recs, snds, &rank);
   rec = sc_array_new_count (sizeof (int), (size_t) nn);
   snd = sc_array_new (sizeof (int));
@@ -307,6 +321,7 @@ int main (int argc, char **argv)
       else if (!strcmp (name, "spacingu")) spacing_probe (1, (int) a[0], (int) a[1], (int) a[2], o);
       else if (!strcmp (name, "use")) do_use (obj[a[0]], (int) a[1], (int) a[2]);
       else if (!strcmp (name, "usev")) do_usev (obj[a[0]], (int) a[1]);
+      else if (!strcmp (name, "usevn")) do_usev (obj[a[0]], 10 + (int) a[1]);     /* payload-free form */
       else if (!strcmp (name, "shuse")) do_shuse (comm_of (a[0]), (int) a[1]);
       else { fprintf (stderr, "c20_harness: unknown operation '%s'\n", name); return 2; }
     }
